@@ -378,6 +378,23 @@ func Wd(p unsafe.Pointer, size uintptr, site int32) struct{} {
 	return struct{}{}
 }
 
+// WS / RS record a write / read of every element of slice x and return x (woven around
+// the slice operands of copy and sort.Slice, whose element accesses the weaver cannot see).
+func WS(x interface{}, site int32) interface{} { sliceAccess(x, true, site); return x }
+func RS(x interface{}, site int32) interface{} { sliceAccess(x, false, site); return x }
+
+func sliceAccess(x interface{}, write bool, site int32) {
+	s := S
+	if s == nil {
+		return
+	}
+	rv := reflect.ValueOf(x)
+	if !rv.IsValid() || rv.Kind() != reflect.Slice || rv.Len() == 0 {
+		return
+	}
+	s.access(unsafe.Pointer(rv.Pointer()), uintptr(rv.Len())*rv.Type().Elem().Size(), write, site)
+}
+
 // R records a read.
 func R(p unsafe.Pointer, size uintptr, site int32) {
 	if s := S; s != nil {
